@@ -44,6 +44,7 @@ type Ctx struct {
 	Inconclusive []string
 	Exhaustive   bool
 	Notes        []string
+	Unique       map[string][]string // values that must be unique across all shards (processes)
 	start        time.Time
 	maxViol      int
 }
@@ -136,6 +137,16 @@ func (c *Ctx) Violate(v Violation) {
 	c.Viols = append(c.Viols, v)
 }
 
+// UniqueAcross registers values that must not occur in any other shard's list of the same name.
+func (c *Ctx) UniqueAcross(name string, vals []string) {
+	c.mu.Lock()
+	if c.Unique == nil {
+		c.Unique = map[string][]string{}
+	}
+	c.Unique[name] = append(c.Unique[name], vals...)
+	c.mu.Unlock()
+}
+
 func (c *Ctx) Inconcl(s string) {
 	c.mu.Lock()
 	c.Inconclusive = append(c.Inconclusive, s)
@@ -172,6 +183,7 @@ type Result struct {
 	Inconclusive []string         `json:"inconclusive"`
 	Exhaustive   bool             `json:"exhaustive"`
 	Notes        []string         `json:"notes"`
+	Unique       map[string][]string `json:"unique_across_shards,omitempty"`
 	WallS        float64          `json:"wall_s"`
 	Done         bool             `json:"done"`
 }
@@ -181,7 +193,7 @@ func (c *Ctx) Write(path string, done bool) error {
 	defer c.mu.Unlock()
 	r := Result{Prop: c.Prop, Tier: c.Tier, Seed: c.Seed, Shard: c.Shard, NShards: c.NShards, Evals: c.Evals,
 		DisjointN: c.DisjointN, Counters: c.Counters, Unspec: c.Unspec, Foreign: c.Foreign, Samples: c.Samples, Viols: c.Viols,
-		Inconclusive: c.Inconclusive, Exhaustive: c.Exhaustive, Notes: c.Notes, WallS: time.Since(c.start).Seconds(), Done: done}
+		Inconclusive: c.Inconclusive, Exhaustive: c.Exhaustive, Notes: c.Notes, Unique: c.Unique, WallS: time.Since(c.start).Seconds(), Done: done}
 	for k := range c.Distinct {
 		r.Distinct = append(r.Distinct, k)
 	}
